@@ -973,6 +973,43 @@ func oracleQuery() {
 		ctx.Violate(key, fmt.Sprintf("invalid query %q (offending byte %d, line %d): %s", clip(contents, 80), p, line, why),
 			map[string]any{"query": contents, "as_argument": asArg, "offset": pe.Offset, "token": pe.Token, "observed": stderr, "why": why, "cmd": fmt.Sprintf("gojq -n %q", contents)})
 	}
+	// whole tokens: a token that cannot start a term, placed where a term must start, is THE
+	// offending token — every operator and keyword spelling of the grammar, in four contexts
+	whole := ctx.NewOracle("offending-token-whole", "every operator/keyword spelling that cannot begin a term (| , // //= |= = += -= *= /= %= == != < <= > >= and or ?// ) ] } as then elif else end catch ; : __loc__-free) placed where a term is expected (start of the query, after `(`, after `1 |`, after `[1,`), with and without white space around it: the ParseError must name exactly that spelling and Offset must be the position right after it; through the command the caret must stand under its first byte; distinct = (spelling, context)")
+	dw := map[string]bool{}
+	for _, tok := range []string{"|", ",", "//", "//=", "|=", "=", "+=", "-=", "*=", "/=", "%=", "==", "!=", "<", "<=", ">", ">=", "and", "or", "?//", ")", "]", "}", "as", "then", "elif", "else", "end", "catch", ";", ":", "*", "/", "%", "+"} {
+		for ci, prefix := range []string{"", "(", "1 | ", "[1,", " \n ", "def f: 1; f | "} {
+			for _, gap := range []string{" ", ""} {
+				src := prefix + tok + gap + "1"
+				if gap == "" && (tok[len(tok)-1] >= 'a' && tok[len(tok)-1] <= 'z') {
+					continue // `and1` is an identifier
+				}
+				_, err := gojq.Parse(src)
+				pe, ok := err.(*gojq.ParseError)
+				if !ok {
+					continue // accepted in this context (e.g. `]` never is, `+1`… is not either; but be safe)
+				}
+				whole.Cases++
+				dw[fmt.Sprint(tok, "|", ci)] = true
+				wantOff := len(prefix) + len(tok)
+				if msgShape(pe.Error()) != "unexpected token" || pe.Offset > wantOff+len(gap)+1 {
+					whole.Distribution["other-error-first"]++
+					continue
+				}
+				if pe.Token != tok || pe.Offset != wantOff {
+					ctx.Violate("offending-token-whole:"+tok+":"+fmt.Sprint(ci), fmt.Sprintf("query %q: the offending token is %q ending at byte %d, the ParseError says Token %q, Offset %d", src, tok, wantOff, pe.Token, pe.Offset),
+						map[string]any{"query": src, "offset": pe.Offset, "token": pe.Token, "expected_token": tok, "expected_offset": wantOff, "message": pe.Error(), "cmd": fmt.Sprintf("gojq -n %q", src)})
+					continue
+				}
+				rep, contents, stderr := queryCLI(src, true)
+				if why, _ := checkReport(rep, []byte(contents), len(prefix), false, false); why != "" && strings.TrimSpace(src) == src {
+					ctx.Violate("offending-token-whole-caret:"+tok+":"+fmt.Sprint(ci), fmt.Sprintf("query %q (offending token %q at byte %d): %s", src, tok, len(prefix), why),
+						map[string]any{"query": src, "observed": strings.ReplaceAll(stderr, tmpDir, "$TMP"), "why": why, "cmd": fmt.Sprintf("gojq -n %q", src)})
+				}
+			}
+		}
+	}
+	whole.Distinct = len(dw)
 	lib.Distinct, cmd.Distinct = len(dl), len(dc)
 	lib.Samples = []string{`12345 "\(2)"`, `"abc \(1 +`, `"a\(1)\q"`}
 	cmd.Samples = []string{". |\\n \"abc \\(1) def\\n  ghi  (unterminated, multi-line)", `"a\(1 2)"`}
